@@ -12,6 +12,38 @@ let n_of_int (i : int) : n = if i <= 0 then N0 else Npos (pos_of_int i)
 let rec int_of_pos = function Coq_xH -> 1 | Coq_xO p -> 2 * int_of_pos p | Coq_xI p -> 2 * int_of_pos p + 1
 let int_of_n = function N0 -> 0 | Npos p -> int_of_pos p
 
+(* ---- arbitrary-size decimal <-> N / Z (usize values exceed OCaml's 63-bit int) ---- *)
+let n_chunk = n_of_int 1_000_000_000
+let n_of_dec (s : string) : n =
+  let len = String.length s in
+  if len <= 17 then n_of_int (int_of_string s)
+  else begin
+    let acc = ref N0 in
+    let i = ref 0 in
+    let first = len mod 9 in
+    if first > 0 then (acc := n_of_int (int_of_string (String.sub s 0 first)); i := first);
+    while !i < len do
+      acc := BinNat.N.add (BinNat.N.mul !acc n_chunk) (n_of_int (int_of_string (String.sub s !i 9)));
+      i := !i + 9
+    done;
+    !acc
+  end
+let rec pos_bits = function Coq_xH -> 1 | Coq_xO p -> 1 + pos_bits p | Coq_xI p -> 1 + pos_bits p
+let n_small = function N0 -> true | Npos p -> pos_bits p <= 60
+let rec dec_of_n (v : n) : string =
+  if n_small v then string_of_int (int_of_n v)
+  else
+    let (q, r) = BinNat.N.div_eucl v n_chunk in
+    dec_of_n q ^ Printf.sprintf "%09d" (int_of_n r)
+let z_of_dec (s : string) : coq_Z =
+  if String.length s > 0 && s.[0] = '-' then BinInt.Z.opp (BinInt.Z.of_N (n_of_dec (String.sub s 1 (String.length s - 1))))
+  else BinInt.Z.of_N (n_of_dec s)
+let dec_of_z (z : coq_Z) : string =
+  match z with
+  | Z0 -> "0"
+  | Zpos p -> dec_of_n (Npos p)
+  | Zneg p -> "-" ^ dec_of_n (Npos p)
+
 let split_on c s = if s = "" then [] else String.split_on_char c s
 let parse_l (tok : string) : n list =
   (* "L1,2,3" *)
